@@ -120,6 +120,9 @@ type funcDefs struct {
 	rangeOf map[types.Object]ast.Expr // variable is the value var of range over expr
 	tupleOf map[types.Object]ast.Expr // variable defined from a multi-value call
 	tupleIx map[types.Object]int      // ... as its i-th result
+	// field writes x.F = v on a local x: per field, and the set of such right-hand sides
+	fieldDefs map[types.Object]map[string][]ast.Expr
+	fromField map[ast.Expr]bool
 }
 
 func (w *World) defsOf(fi *FuncInfo) *funcDefs {
@@ -135,7 +138,7 @@ func (w *World) defsOf(fi *FuncInfo) *funcDefs {
 }
 
 func (w *World) defsOfUncached(fi *FuncInfo) *funcDefs {
-	fd := &funcDefs{defs: map[types.Object][]ast.Expr{}, rangeOf: map[types.Object]ast.Expr{}, tupleOf: map[types.Object]ast.Expr{}, tupleIx: map[types.Object]int{}}
+	fd := &funcDefs{defs: map[types.Object][]ast.Expr{}, rangeOf: map[types.Object]ast.Expr{}, tupleOf: map[types.Object]ast.Expr{}, tupleIx: map[types.Object]int{}, fieldDefs: map[types.Object]map[string][]ast.Expr{}, fromField: map[ast.Expr]bool{}}
 	info := fi.Pkg.TypesInfo
 	objOf := func(e ast.Expr) types.Object {
 		id, ok := e.(*ast.Ident)
@@ -165,6 +168,11 @@ func (w *World) defsOfUncached(fi *FuncInfo) *funcDefs {
 						if o := objOf(lx.X); o != nil {
 							if _, isVar := o.(*types.Var); isVar {
 								fd.defs[o] = append(fd.defs[o], s.Rhs[i])
+								if fd.fieldDefs[o] == nil {
+									fd.fieldDefs[o] = map[string][]ast.Expr{}
+								}
+								fd.fieldDefs[o][lx.Sel.Name] = append(fd.fieldDefs[o][lx.Sel.Name], s.Rhs[i])
+								fd.fromField[s.Rhs[i]] = true
 							}
 						}
 					}
@@ -301,6 +309,14 @@ func (w *World) atomsInto(fi *FuncInfo, fd *funcDefs, e ast.Expr, a *Atoms, seen
 		if sel := info.Selections[x]; sel != nil {
 			switch sel.Kind() {
 			case types.FieldVal:
+				// x.F where x is (only ever) built from struct literals and field writes in
+				// view: the value of F, not everything that went into x
+				if vals, ok := w.projectField(fi, fd, x.X, x.Sel.Name, 0); ok {
+					for _, v := range vals {
+						w.atomsInto(v.Fi, w.defsOf(v.Fi), v.Expr, a, seen, depth+1)
+					}
+					return
+				}
 				a.Fields[qualField(info, x)] = true
 				w.atomsInto(fi, fd, x.X, a, seen, depth+1)
 			case types.MethodVal, types.MethodExpr:
@@ -403,6 +419,117 @@ func (w *World) atomsInto(fi *FuncInfo, fd *funcDefs, e ast.Expr, a *Atoms, seen
 	case *ast.KeyValueExpr:
 		w.atomsInto(fi, fd, x.Value, a, seen, depth+1)
 	}
+}
+
+type boundExprAt struct {
+	Fi   *FuncInfo
+	Expr ast.Expr
+}
+
+// projectField resolves x.field when x is a local (or the result of a new function) that
+// is only ever defined by struct literals, zero declarations and field writes: the
+// expressions that can be the value of that field. ok is false when x has any other origin.
+func (w *World) projectField(fi *FuncInfo, fd *funcDefs, x ast.Expr, field string, depth int) ([]boundExprAt, bool) {
+	if depth > 6 {
+		return nil, false
+	}
+	info := fi.Pkg.TypesInfo
+	var out []boundExprAt
+	fromLit := func(f *FuncInfo, lit *ast.CompositeLit) bool {
+		st := structOf(f.Pkg.TypesInfo.TypeOf(lit))
+		if st == nil {
+			return false
+		}
+		for i, el := range lit.Elts {
+			if kv, ok := el.(*ast.KeyValueExpr); ok {
+				if id, ok := kv.Key.(*ast.Ident); ok && id.Name == field {
+					out = append(out, boundExprAt{f, kv.Value})
+				}
+			} else if i < st.NumFields() && st.Field(i).Name() == field {
+				out = append(out, boundExprAt{f, el})
+			}
+		}
+		return true
+	}
+	var resolve func(f *FuncInfo, ffd *funcDefs, e ast.Expr, d int) bool
+	resolve = func(f *FuncInfo, ffd *funcDefs, e ast.Expr, d int) bool {
+		if d > 6 {
+			return false
+		}
+		finfo := f.Pkg.TypesInfo
+		switch v := ast.Unparen(e).(type) {
+		case *ast.UnaryExpr:
+			if v.Op == token.AND {
+				return resolve(f, ffd, v.X, d+1)
+			}
+		case *ast.CompositeLit:
+			return fromLit(f, v)
+		case *ast.CallExpr:
+			if name := calleeOfCall(finfo, v); name != "" && w.isNewName(name) {
+				tgt := w.Funcs[name]
+				for _, r := range resultExprs(tgt, 0) {
+					if !resolve(tgt, w.defsOf(tgt), r, d+1) {
+						return false
+					}
+				}
+				return true
+			}
+		case *ast.Ident:
+			o, isVar := finfo.ObjectOf(v).(*types.Var)
+			if !isVar || o.IsField() || (o.Pkg() != nil && o.Parent() == o.Pkg().Scope()) {
+				return false
+			}
+			if _, isRange := ffd.rangeOf[o]; isRange {
+				return false
+			}
+			if _, _, isParam := w.argsBoundTo(o); isParam {
+				return false
+			}
+			ds := ffd.defs[o]
+			if len(ds) == 0 && len(ffd.fieldDefs[o]) == 0 {
+				// declared without value inside the function: zero value; a parameter: unknown
+				if o.Pos() > f.Decl.Body.Pos() && o.Pos() < f.Decl.Body.End() {
+					return true
+				}
+				return false
+			}
+			for _, dexp := range ds {
+				if ffd.fromField[dexp] {
+					continue
+				}
+				if tc, isTuple := ffd.tupleOf[o]; isTuple && tc == dexp {
+					call, ok := dexp.(*ast.CallExpr)
+					if !ok {
+						return false
+					}
+					name := calleeOfCall(finfo, call)
+					if name == "" || !w.isNewName(name) {
+						return false
+					}
+					tgt := w.Funcs[name]
+					for _, r := range resultExprs(tgt, ffd.tupleIx[o]) {
+						if !resolve(tgt, w.defsOf(tgt), r, d+1) {
+							return false
+						}
+					}
+					continue
+				}
+				if !resolve(f, ffd, dexp, d+1) {
+					return false
+				}
+			}
+			for _, fv := range ffd.fieldDefs[o][field] {
+				out = append(out, boundExprAt{f, fv})
+			}
+			return true
+		}
+		return false
+	}
+	_ = info
+	if !resolve(fi, fd, x, depth) {
+		return nil, false
+	}
+	return out, true
 }
 
 // atomsOfNewCall adds the atoms of what a new function returns (result idx, or all).
